@@ -96,20 +96,20 @@ fn membership_case(commit: bool) {
 }
 
 #[kani::proof]
-#[kani::unwind(12)]
+#[kani::unwind(82)]
 fn c13_membership_tag_commit_bounded_2() {
     membership_case(true);
 }
 
 #[kani::proof]
 #[kani::stub(zeroize::optimization_barrier, noop_barrier)]
-#[kani::unwind(12)]
+#[kani::unwind(82)]
 fn c13_membership_tag_application_bounded_2() {
     membership_case(false);
 }
 
 #[kani::proof]
-#[kani::unwind(12)]
+#[kani::unwind(82)]
 fn c13_membership_tag_provider_error() {
     let p = GhostProvider::failing_at(0);
     let ctx = group_context(&[1], &[2], &[3], None);
